@@ -62,6 +62,17 @@ Theorem C12_explicit_document_end_gets_its_marker : forall s, Emit.state s = Emi
 Proof. exact EmitMarkers.explicit_document_end_gets_its_marker. Qed.
 Eval vm_compute in "ASSUME:C12_explicit_document_end_gets_its_marker"%string. Print Assumptions C12_explicit_document_end_gets_its_marker.
 
+(* KIND C12_markers_example : F *)
+(* two documents - the first with explicit start and end, the second with a %YAML 1.1 directive - are written `--- a / ... / %YAML 1.1 / --- b / ...` *)
+Example C12_markers_example :
+  let sc v := Emit.EScalar None None true false v None in
+  match EmitLemmas.emit_state [Emit.EStreamStart; Emit.EDocStart true None []; sc [97%N]; Emit.EDocEnd true; Emit.EDocStart false (Some (1%N, 1%N)) [];
+                               sc [98%N]; Emit.EDocEnd false; Emit.EStreamEnd] (Emit.init false false None None [10%N]) with
+  | inl s' => List.concat (rev (Emit.out s')) =
+              [45; 45; 45; 32; 97; 10; 46; 46; 46; 10; 37; 89; 65; 77; 76; 32; 49; 46; 49; 10; 45; 45; 45; 32; 98; 10; 46; 46; 46; 10]%N
+  | inr _ => False end.
+Proof. vm_compute. reflexivity. Qed.
+
 (* PARTIAL: doc_markers / no_marker_inside / doc_text_prefix_stable on the emitter model and parser_doc_count are not proved; decided by the exact-text
    emitter correspondence, the parse correspondence and the direct dump_all/serialize_all/emit -> load_all/compose_all/parse run (n in = n out, each
    document equal, text of a document independent of its followers). *)
